@@ -1,0 +1,54 @@
+//go:build verif
+// +build verif
+
+package hap
+
+// The functions in this file are only compiled with the "verif" build tag.
+// They let the verification harness run private functions of the package on inputs of its choice.
+
+// VerifPlainStep is what one call of plainMessageBytes did: how many bytes it handed over and
+// the state of the connection behind it.
+type VerifPlainStep struct {
+	N         int   // bytes handed over
+	HeaderLen int   // len(plainHeader)
+	Body      int64 // plainBody
+	Unframed  bool  // plainUnframed
+}
+
+// VerifPlainReads runs the plain text phase of Connection.Read on a connection without a socket:
+// when nothing is buffered the next bytes (at most max) are taken from the front of segs, then
+// plainMessageBytes(max) tells how many of the buffered bytes are handed over. maxes gives the
+// buffer size of every read; the run ends with it or when no bytes are left.
+func VerifPlainReads(segs [][]byte, maxes []int) []VerifPlainStep {
+	con := &Connection{}
+	var steps []VerifPlainStep
+	for _, max := range maxes {
+		if len(con.plain) == 0 {
+			for len(segs) > 0 && len(segs[0]) == 0 {
+				segs = segs[1:]
+			}
+			if len(segs) == 0 {
+				break
+			}
+			n := len(segs[0])
+			if n > max {
+				n = max
+			}
+			con.plain = append(con.plain, segs[0][:n]...)
+			segs[0] = segs[0][n:]
+		}
+		n := con.plainMessageBytes(max)
+		con.plain = con.plain[n:]
+		if len(con.plain) == 0 {
+			con.plain = nil
+		}
+		steps = append(steps, VerifPlainStep{n, len(con.plainHeader), con.plainBody, con.plainUnframed})
+	}
+	return steps
+}
+
+// VerifPlainHeaderEnd is plainHeaderEnd(b) of a connection which handed over header before.
+func VerifPlainHeaderEnd(header, b []byte) int {
+	con := &Connection{plainHeader: header}
+	return con.plainHeaderEnd(b)
+}
